@@ -484,6 +484,7 @@ func (r *TableHTMLRenderer) renderTableCell(
 	}
 	if entering {
 		_, _ = fmt.Fprintf(w, "<%s", tag)
+		var attrs gast.Node = n
 		if n.Alignment != ast.AlignNone {
 			amethod := r.TableConfig.TableCellAlignMethod
 			if amethod == TableCellAlignDefault {
@@ -507,14 +508,20 @@ func (r *TableHTMLRenderer) renderTableCell(
 				}
 				style := fmt.Sprintf("text-align:%s", n.Alignment.String())
 				cob.AppendString(style)
-				n.SetAttributeString("style", cob.Bytes())
+				// render from a copy so that the node itself is not modified
+				tmp := ast.NewTableCell()
+				for _, attr := range n.Attributes() {
+					tmp.SetAttribute(attr.Name, attr.Value)
+				}
+				tmp.SetAttributeString("style", cob.Bytes())
+				attrs = tmp
 			}
 		}
-		if n.Attributes() != nil {
+		if attrs.Attributes() != nil {
 			if tag == "td" {
-				html.RenderAttributes(w, n, TableTdCellAttributeFilter) // <td>
+				html.RenderAttributes(w, attrs, TableTdCellAttributeFilter) // <td>
 			} else {
-				html.RenderAttributes(w, n, TableThCellAttributeFilter) // <th>
+				html.RenderAttributes(w, attrs, TableThCellAttributeFilter) // <th>
 			}
 		}
 		_ = w.WriteByte('>')
